@@ -426,6 +426,43 @@ def t10_magic(run, fx, floors=True):
         run.floor(rule, "sfnt version decisions", n, 3)
 
 
+def t10_flav(run, fx):
+    rule = "T10-FLAV"
+    run.rule(rule, "the container kind follows the magic number alone: in OpenTypeFont::read everything built under the 'ttcf' arm is "
+                   "OpenTypeData::Collection and everything under the sfnt version arms is OpenTypeData::Single (a collection presented as a bare "
+                   "font loses its member bound: an out-of-range member index is no longer an error)")
+    bs = [b for b in fx.bodies if b.kind != "Closure" and b.path.startswith("<tables::OpenTypeFont<") and b.path.endswith("ReadBinary>::read")]
+    if not bs:
+        return run.anchor_missing(rule, "<tables::OpenTypeFont as ReadBinary>::read")
+    b = bs[0]
+    TTCF = 0x74746366
+    sw = None
+    for bi in range(len(b.blocks)):
+        t = b.term(bi)
+        if t["k"] == "switch" and b.reachable(bi) and t.get("dty") == "u32" and any(v == TTCF for v, _ in t["arms"]):
+            sw = t
+    if sw is None:
+        return run.anchor_missing(rule, "match on the magic number in OpenTypeFont::read")
+    n = 0
+    for val, tgt in sw["arms"]:
+        want = "Collection" if val == TTCF else ("Single" if val in SFNT_MAGICS else None)
+        if want is None:
+            continue
+        for bi in range(len(b.blocks)):
+            if not (b.reachable(bi) and b.dominates(tgt, bi)):
+                continue
+            for st in b.stmts(bi):
+                rv = st.get("rv") or {}
+                if st.get("k") == "assign" and rv.get("k") == "agg" and (rv.get("adt") or "").endswith("OpenTypeData"):
+                    n += 1
+                    if rv.get("vname") == want:
+                        run.ok(rule, "magic %#x -> OpenTypeData::%s" % (val, want))
+                    else:
+                        run.fail(rule, "flavour:%s" % want, "OpenTypeFont::read builds OpenTypeData::%s under the magic number %#x" % (rv.get("vname"), val), b.loc(st))
+    if n < 2:
+        run.anchor_missing(rule, "OpenTypeData literals under the magic arms (found %d)" % n)
+
+
 def check(run, fx, tier, floors=True):
     import speclayout
     speclayout.rule_layouts(run, fx, "T10-LAYOUT", ["container", "woff2"], floors)
@@ -435,5 +472,7 @@ def check(run, fx, tier, floors=True):
     t10_sib(run, fx, floors)
     t10_woff(run, fx)
     t10_magic(run, fx, floors)
+    if floors or any(b.path.startswith("<tables::OpenTypeFont<") for b in fx.bodies):
+        t10_flav(run, fx)
     rxs = [re.compile(r) for r in PANIC_SCOPE]
     rules_C01.rule_panics(run, fx, "T10-PAN", lambda b: any(r.search(b.root) for r in rxs), floors, floor_n=0)
